@@ -239,6 +239,49 @@ def gen_case(rng, big=False, reload_p=0.35):
     return {"dialers": dialers, "groups": groups, "tolerance": tol, "ops": ops[:target + 60]}
 
 
+def reload_family(full):
+    """fixed boundary family for the reload hand-over: 2-3 latency-policy groups over 2-4 nodes in every
+    subset / overlap shape (disjoint, one shared node, nested both ways, identical, member order reversed, chains)
+    x health pattern of one domain (all nodes dead in both IP versions / dead in one version only / exactly one node
+    alive), the nodes killed by forced reports, then a reload.  full=False: for the patterns other than all-dead the
+    domain rotates instead of being crossed."""
+    shapes = [
+        ("disjoint", 4, [[0, 1], [2, 3]]),
+        ("one_shared", 3, [[0, 1], [1, 2]]),
+        ("one_shared_first", 3, [[1, 0], [1, 2]]),
+        ("nested", 3, [[0, 1, 2], [1, 2]]),
+        ("nested_reversed_order", 3, [[0, 1, 2], [2, 1]]),
+        ("nested_first_shared", 3, [[1, 0, 2], [1, 2]]),
+        ("nested_inner_first", 3, [[1, 2], [0, 1, 2]]),
+        ("identical", 2, [[0, 1], [0, 1]]),
+        ("identical_reversed", 2, [[0, 1], [1, 0]]),
+        ("chain3", 4, [[0, 1, 2], [1, 2], [2, 3]]),
+        ("cycle3", 3, [[0, 1], [1, 2], [0, 2]]),
+        ("nested3", 4, [[0, 1, 2, 3], [1, 2, 3], [2, 3]]),
+        ("two_inside_one", 4, [[0, 1, 2, 3], [1, 2], [2, 3]]),
+    ]
+    fams = [(0, 1), (2, 3), (4, 5)]
+    out = []
+    k = 0
+    for name, nd, groups in shapes:
+        patterns = [("all_dead", None, (0, 1)), ("dead_v4_only", None, (0,)), ("dead_v6_only", None, (1,))] + [("one_alive", a, (0, 1)) for a in range(nd)]
+        for pname, alive_node, vers in patterns:
+            for fam in (fams if (full or pname == "all_dead") else [fams[k % 3]]):
+                k += 1
+                ops = []
+                for n in range(nd):
+                    if n == alive_node:
+                        continue
+                    for v in vers:
+                        ops.append({"op": "fail", "n": n, "dom": fam[v], "kind": "forced", "err": "timeout", "alt": False})
+                ops.append({"op": "reload"})
+                pols = ["min_last", "min_avg10", "min_moving_avg"]
+                out.append({"dialers": [{"addr": ""} for _ in range(nd)],
+                            "groups": [{"policy": pols[(gi + k) % 3], "members": ms, "offsets": [0] * len(ms), "oid": 2 + gi} for gi, ms in enumerate(groups)],
+                            "tolerance": 0, "ops": ops, "family": "%s/%s/%s" % (name, pname, DOMS[fam[0]][:-1])})
+    return out
+
+
 # ------------------------------------------------------------------------------------------------
 # observation encodings (must mirror obs_full / obs_proj_* of coq/C16_Check.v)
 # ------------------------------------------------------------------------------------------------
@@ -364,8 +407,9 @@ def case_to_coq(case, res):
     for op, st in zip(case["ops"], res["steps"]):
         full, pl, pn = encode_step(case, st, bits)
         proj, projn = pn if op["op"] == "reload" else pl
-        steps.append("(Build_obs_step %s %s %s %s %s)" % (ev_term(op, st), vlib.cbool(spec_ignorable(op)) if op["op"] == "fail" else "false",
-                                                          hex(hash_list(full)), hex(hash_list(proj)), hex(hash_list(projn))))
+        post = clist([vlib.cbool(row[IDX[dom]][0]) for row in st["dialers"] for dom in range(6)]) if op["op"] == "reload" else "[]"
+        steps.append("(Build_obs_step %s %s %s %s %s %s)" % (ev_term(op, st), vlib.cbool(spec_ignorable(op)) if op["op"] == "fail" else "false",
+                                                             hex(hash_list(full)), hex(hash_list(proj)), hex(hash_list(projn)), post))
     keys = clist(["(%d, %s, %d)" % (g, DOMS[dom], k) for g, dom, k in res["keys"]])
     return "(Build_obs_case %s %d%%nat %d%%nat %s %s %s\n  %s)" % (cfg, len(case["dialers"]), len(ids), hex(hash_list(f0)), hex(hash_list(p0)), keys, clist(steps))
 
@@ -554,6 +598,8 @@ def main(argv):
             for n in sorted(os.listdir(cdir)):
                 if n.endswith(".json"):
                     corpus.append(json.load(open(os.path.join(cdir, n))))
+        family = reload_family(args.tier == "thorough")
+        corpus = corpus + family          # fixed inputs run first, like the corpus
         cases = corpus + [gen_case(rng, big=(args.tier == "thorough" and i % 3 == 0)) for i in range(n_cases)]
         all_err, all_res, sigs, fatal = {}, {}, [], None
 
@@ -622,13 +668,14 @@ def main(argv):
                 reported_other = True
                 continue
             by_class.setdefault(classify(cases[i], all_res[i], e), i)     # hard is sorted by size: smallest of each class
+        log("impl<>spec classes: %s" % {c: (i, cases[i].get("family")) for c, i in by_class.items()})
         for cls, i in sorted(by_class.items(), key=lambda kv: kv[0] != "other"):
             e = all_err[i]
             want_tie = has_code(e, (1,)) and not model_agrees(e)
-            pred = (lambda er, cs=None: is_hard(er) and (not want_tie or has_code(er, (1,)))) if cls == "other" else (lambda er: is_hard(er) and model_agrees(er))
+            pred = (lambda er: is_hard(er) and (not want_tie or not model_agrees(er))) if cls == "other" else (lambda er: is_hard(er) and model_agrees(er))
             small = cases[i] if (i < len(corpus) and cls != "other") else shrink(sc, binary, cases[i], pred, budget=8)
             errs, _, f3, results = evaluate(sc, binary, [small], "min")
-            if f3 or 0 not in errs or not is_hard(errs[0]):
+            if f3 or 0 not in errs or not is_hard(errs[0]) or classify(small, results[0], errs[0]) != cls:
                 small, errs, results = cases[i], {0: e}, [all_res[i]]
             info = describe(small, results[0], errs[0], HARD)
             matchers = [FLOOR] if classify(small, results[0], errs[0]) == FLOOR else []
@@ -652,7 +699,7 @@ def main(argv):
             out.violation("tie", what, "proof obligation or model correspondence no longer checks; no failing input found", no_failing_input=True)
         nontrivial = len(set(s for s in sigs if int(s[0]) > 0 and int(s[2]) > 0))
         cov.update(evaluations=n_eval, distinct_nontrivial=nontrivial, distinct_signatures=len(set(sigs)),
-                   rule="random histories over 1-4 nodes (shared / empty proxy addresses), 0-3 groups (3 latency policies, random, fixed; shared nodes; offsets; tolerance), "
+                   rule="fixed reload family (2-3 groups x 2-4 nodes in all overlap shapes x all-dead / one-version-dead / one-alive per domain, then reload) + random histories over 1-4 nodes (shared / empty proxy addresses), 0-3 groups (3 latency policies, random, fixed; shared nodes; offsets; tolerance), "
                         "built from runs of probe / transactional / traffic failures of length threshold-2..threshold+2 with interruptions (success, ignorable error, skipped probe, other source), "
                         "forced reports, escalation bursts, suppression scopes and quiesce end, global reset, reloads; both spellings of each network type. "
                         "signature = (threshold deaths, escalations, revivals, suppressed failures, slot clears, reloads) saturated at 3; non-trivial = at least one threshold death and one revival",
@@ -661,6 +708,7 @@ def main(argv):
                    steps_evaluated=sum(len(c["ops"]) for c in cases),
                    comparisons="per step: hash of the implementation's full dump (8 slots x (alive, failCount, trafficFailCount) per node, transition callbacks, slot writes, every alive set's entries/latencies/best, tracker counts, suppression) = model; "
                                "projection (alive per node x domain, transition callbacks, members per group x type, slot value of latency groups) impl = spec and model = spec",
+                   reload_family_cases=len(family),
                    samples=[cases[len(corpus)]] if len(cases) > len(corpus) else [cases[0]], widened_search=widened)
     return out.finish()
 
